@@ -249,7 +249,7 @@ def q2(ctx, F):
                       what="an aborted recursive search (None) must be propagated with `?` straight to the caller: the result is used "
                            "otherwise or more work (push / move generation / recursion / table insertion) follows the abort",
                       expected="result -> Try::branch -> None arm -> return, no call in between", found=found)
-    ctx.floor("C07.Q2", "recursive call sites", total, 6)
+    ctx.floor("C07.Q2", "recursive call sites", total, 3)       # 6 on the reference tree; a refactor may merge sites
     # driver: let-else on the entry result
     fn = F.fn(DRIVER)
     cfg = mir.Cfg(fn)
